@@ -5,6 +5,7 @@ package sim
 
 import (
 	"fmt"
+	"math/big"
 	"strings"
 )
 
@@ -129,7 +130,46 @@ func (e *execState) refine(bo *blockObs) bool {
 	implBegin := normCalls(bo.Begin)
 	if ok, d := sameTransfers(bo.BeginFx.Transfers, implBegin); !ok {
 		props := e.classifyBeginMismatch(bo, implBegin)
-		add(props, "begin.transfers", e.beginKey(bo), "begin-block transfers differ: "+d, -1)
+		var rest []string
+		for _, p := range props {
+			if p != "C03" {
+				rest = append(rest, p)
+				continue
+			}
+			// C03's own rule: the clearing of a batch order book
+			for _, ev := range bo.BeginFx.Events {
+				var id uint64
+				if n, _ := fmt.Sscanf(ev, "settle:%d", &id); n == 1 {
+					if a := e.modelAuctionBefore(id); a != nil && a.Type == TypeBatch {
+						own := func(ts []MTransfer) []MTransfer {
+							var out []MTransfer
+							for _, t := range ts {
+								if t.From == a.SellEscrow || t.From == a.PayEscrow {
+									out = append(out, t)
+								}
+							}
+							return out
+						}
+						if same, _ := sameTransfers(own(bo.BeginFx.Transfers), own(implBegin)); same {
+							continue
+						}
+						if id >= uint64(len(bo.Cur.Auctions)) || (bo.Cur.Auctions[id].Status != StVesting && bo.Cur.Auctions[id].Status != StFinished) {
+							continue // the implementation did not settle in this block: a matter of the extension rule (C13), not of the clearing
+						}
+						key := "order-book"
+						if a.DustTop {
+							key = "dust-bid-on-top"
+						}
+						sold := "nothing"
+						if a.MatchedPrice != nil && a.MatchedPrice.Sign() > 0 {
+							sold = "clearing price " + decString(a.MatchedPrice)
+						}
+						res.addV("C03", "batch.clearing", key, fmt.Sprintf("auction %d settlement: the lowest bid price whose capped demand fits supply gives %s with allocations %v; the implementation transferred %v", id, sold, bigMapStr(a.Alloc), trList(own(implBegin))), bi, -1)
+					}
+				}
+			}
+		}
+		add(rest, "begin.transfers", e.beginKey(bo), "begin-block transfers differ: "+d, -1)
 	}
 	// transactions
 	for i := range bo.Txs {
@@ -252,4 +292,14 @@ func (e *execState) classifyBeginMismatch(bo *blockObs, impl []MTransfer) []stri
 		props = append(props, "C08")
 	}
 	return props
+}
+
+func bigMapStr(m map[string]*big.Int) string {
+	var sb strings.Builder
+	for _, k := range sortedKeys(m) {
+		if m[k].Sign() != 0 {
+			fmt.Fprintf(&sb, "%s=%s ", short(k), m[k])
+		}
+	}
+	return "{" + strings.TrimSpace(sb.String()) + "}"
 }
